@@ -337,17 +337,142 @@ class Prov:
             return ("agg", "repeat", str(r["n"]), (("0", self.op_tree(r["op"], depth + 1)),))
         return ("unknown", r.get("s", k))
 
+    def _transparent(self, key, c, args, depth):
+        prog = getattr(getattr(self.body, "unit", None), "prog", None)
+        if prog is None or depth > 60 or getattr(self, "_inl_depth", 0) >= 3:
+            return None
+        cal = _transparent_callee(prog, self.body, key, c["name"])
+        if cal is None or cal.argc != len(args):
+            return None
+        sub = Prov(cal)
+        sub._inl_depth = getattr(self, "_inl_depth", 0) + 1
+        rt = sub.local_tree(0)
+        if strip(rt)[0] in ("unknown",) or _has_unknown(rt):
+            return None
+        return _subst_params(rt, {i + 1: a for i, a in enumerate(args)})
+
     def call_tree(self, t, depth=0):
         c = mir.callee_of(t)
         args = tuple(self.op_tree(a, depth + 1) for a in t["args"])
         if c is None:
             return ("call", "<indirect>", "<indirect>", args)
         key = c.get("resolved") or c["key"]
+        inl = self._transparent(key, c, args, depth)
+        if inl is not None:
+            return inl
         if not c.get("resolved") and c.get("trait") and "self_ty" in c:
             st = self.body.ty(c["self_ty"])
             if st["k"] == "adt":
                 key = "%s::<%s as %s>::%s" % (st["path"].rsplit("::", 1)[0], st["name"], c["trait"], c["name"])
         return ("call", key, c["name"], args)
+
+
+def _has_unknown(t, depth=0):
+    if depth > 80:
+        return True
+    k = t[0]
+    if k == "unknown":
+        return True
+    if k == "path":
+        return t[1][0] == "local"      # a callee-local the tree could not resolve would be meaningless in the caller
+    if k == "call":
+        return any(_has_unknown(a, depth + 1) for a in t[3])
+    if k == "bin":
+        return _has_unknown(t[2], depth + 1) or _has_unknown(t[3], depth + 1)
+    if k in ("un", "cast"):
+        return _has_unknown(t[2], depth + 1)
+    if k == "agg":
+        return any(_has_unknown(s_, depth + 1) for _, s_ in t[3])
+    if k in ("ref", "deref", "discr", "promoted", "field"):
+        return _has_unknown(t[1], depth + 1)
+    if k == "phi":
+        return any(_has_unknown(s_, depth + 1) for s_ in t[1])
+    return False
+
+
+def _transparent_callee(prog, body, key, name):
+    """the in-workspace body a call can be replaced by, or None (see facts.Program.opaque_names)"""
+    if prog is None or name in prog.opaque_names():
+        return None
+    cal = prog.bodies.get(key)
+    if cal is None or cal.is_closure or cal.unit.crate != body.unit.crate or cal is body:
+        return None
+    if getattr(cal, "_transp", None) is None:
+        ok = len(cal.blocks) <= 60
+        for b in cal.blocks:
+            if b["cleanup"]:
+                continue
+            for s_ in b["stmts"]:
+                # no stores through references: an expression-like helper
+                if s_["k"] == "assign" and any(e[0] == "deref" for e in s_["p"]["proj"]):
+                    ok = False
+            tm = b["term"]
+            if tm["k"] == "call":
+                c2 = mir.callee_of(tm)
+                if c2 is not None and (c2.get("resolved") or c2["key"]) == cal.key:
+                    ok = False          # recursive
+                if c2 is not None and c2["name"] in OPASSIGN:
+                    ok = False
+        # a body with a loop is not an expression
+        if ok:
+            g = mir.cfg(cal)
+            for bi in range(len(cal.blocks)):
+                if g.succ[bi] and bi in g.reachable_from(g.succ[bi][0]) and not cal.blocks[bi]["cleanup"]:
+                    ok = False
+                    break
+        cal._transp = ok
+    return cal if cal._transp else None
+
+
+def _subst_params(t, argmap):
+    """replace ("path", ("arg", i), proj) by the caller's tree for argument i (projections re-applied)"""
+    k = t[0]
+    if k == "path":
+        r = t[1]
+        if r[0] == "arg" and r[1] in argmap:
+            cur = argmap[r[1]]
+            for n in t[2]:
+                cur = _project(cur, n)
+            return cur
+        return t
+    if k == "call":
+        return ("call", t[1], t[2], tuple(_subst_params(a, argmap) for a in t[3]))
+    if k == "bin":
+        return ("bin", t[1], _subst_params(t[2], argmap), _subst_params(t[3], argmap))
+    if k == "un":
+        return ("un", t[1], _subst_params(t[2], argmap))
+    if k == "cast":
+        return ("cast", t[1], _subst_params(t[2], argmap)) + tuple(t[3:])
+    if k == "agg":
+        return ("agg", t[1], t[2], tuple((f, _subst_params(s_, argmap)) for f, s_ in t[3]))
+    if k in ("ref", "deref", "discr", "promoted"):
+        return (k, _subst_params(t[1], argmap))
+    if k == "field":
+        return _project(_subst_params(t[1], argmap), t[2])
+    if k == "phi":
+        return ("phi", tuple(_subst_params(s_, argmap) for s_ in t[1]))
+    return t
+
+
+def _project(cur, n):
+    """apply one projection step (field name or '*') to a tree"""
+    if n == "*":
+        if cur[0] == "ref":
+            return cur[1]
+        if cur[0] == "path":
+            return ("path", cur[1], cur[2] + ("*",))
+        return ("deref", cur)
+    if cur[0] == "ref" :
+        return _project(cur[1], n)
+    if cur[0] == "path":
+        return ("path", cur[1], cur[2] + (n,))
+    if cur[0] == "agg":
+        for f, sub in cur[3]:
+            if f == n:
+                return sub
+    if cur[0] == "phi":
+        return ("phi", tuple(_project(x, n) for x in cur[1]))
+    return ("field", cur, n)
 
 
 def reroot_outer(t, parent):
